@@ -622,8 +622,20 @@ def main():
         ints.add(rng.randint(-(2 ** rng.randint(1, 2100)), 2 ** rng.randint(1, 2100)))
     ints = sorted(ints)
     cases = [["WI", str(z)] for z in ints]
-    impl = common.run_impl("impl_c18.py", dict(kind="codec", cases=cases))["results"]
-    model = common.run_driver(exe, ["WI " + zstr(str(z)) for z in ints])
+    def sharded_driver(lines, k=4):
+        """one driver process per shard, concurrently (extracted arithmetic on inductive integers is slow)"""
+        parts = [lines[i::k] for i in range(k)]
+        with cf.ThreadPoolExecutor(k) as ex:
+            outs = list(ex.map(lambda p: common.run_driver(exe, p) if p else [], parts))
+        res = [None] * len(lines)
+        for i, o in enumerate(outs):
+            res[i::k] = o
+        return res
+
+    with cf.ThreadPoolExecutor(1) as ex1:
+        fut = ex1.submit(sharded_driver, ["WI " + zstr(str(z)) for z in ints])
+        impl = common.run_impl("impl_c18.py", dict(kind="codec", cases=cases))["results"]
+        model = fut.result()
     rcases, mlines = [], []
     for z, a, m in zip(ints, impl, model):
         c.count(("WI", z), nontrivial=True)
@@ -644,8 +656,10 @@ def main():
         h = bytes([rng.choice([253, 254, 255, rng.randint(0, 255)])] + [rng.randint(0, 255) for _ in range(n)]).hex()
         rcases.append(["RI", h])
         rcases.append(["RB", h])
-    impl = common.run_impl("impl_c18.py", dict(kind="codec", cases=rcases))["results"]
-    model = common.run_driver(exe, [("RI " + a) if k == "RI" else ("RV bytes " + a) for k, a in rcases])
+    with cf.ThreadPoolExecutor(1) as ex1:
+        fut = ex1.submit(sharded_driver, [("RI " + a) if k == "RI" else ("RV bytes " + a) for k, a in rcases])
+        impl = common.run_impl("impl_c18.py", dict(kind="codec", cases=rcases))["results"]
+        model = fut.result()
     for (k, arg), a, m in zip(rcases, impl, model):
         c.count((k, arg), nontrivial=True)
         c.hist("codec:" + ("read_int" if k == "RI" else "read_bytes"))
